@@ -107,6 +107,9 @@ def curated():
     add({"Root": [rule("(?:a|b)*"), rule("c")]})
     # deep push chain
     add({"Root": [rule("a", act="push", state="Root"), rule("b", act="pop"), rule("c")]})
+    # a pattern that starts with ^ and has a top-level alternation: every alternative is anchored at the current position
+    add({"Root": [rule("^a|b"), rule("c"), rule("\\s+", True)]})
+    add({"Root": [rule("\\Aa|c"), rule("(?m)^b|a"), rule("(?s).")]})
     return K
 
 
@@ -146,6 +149,9 @@ def curated_gen():
     add({"Root": [P(0, "a"), RET]})                                             # return in Root
     add({"Root": [P(0, "[^\\n]+"), P(1, "\\n")]})
     add({"Root": [P(0, "\\w+"), P(1, "\\s"), P(2, "[[:punct:]]")]})
+    # dot-all in the middle / at the end of a pattern at the end of the input
+    add({"Root": [P(0, "a(?s:.)"), P(1, "b(?s:.)c"), P(2, "(?s).")]})
+    add({"Root": [P(0, "(?s)a.b?"), P(1, "[^a]")]})
     # two pushing rules into different states (two live lexers of one definition must not share their state stacks)
     add({"Root": [P(0, "a", act="push", state="S1"), P(1, "b", act="push", state="S2"), P(2, "c")],
          "S1": [P(3, "c"), P(0, "a", act="push", state="S1"), P(4, "e", act="pop")],
